@@ -228,7 +228,8 @@ class Obs:
         self.first_ack: Dict[int, int] = {}
         for cid, fs in self.frames.items():
             for f in fs:
-                if f["h"]["type"] == MT["ACKNOWLEDGE"] and f["xid"] == 0 and f["h"]["src_mod"] == 0:
+                # (control frames sent before the handshake are acknowledged to module id 0: not the id being told)
+                if f["h"]["type"] == MT["ACKNOWLEDGE"] and f["xid"] == 0 and f["h"]["src_mod"] == 0 and f["h"]["dst_mod"] != 0:
                     self.first_ack[cid] = f["h"]["dst_mod"]
                     break
 
@@ -492,11 +493,14 @@ def check_C06(hs: History, conns, ex: Expect, ob: Obs):
             continue
         refused_obs = not acks or (want and want[0]["kind"] != "connect")
         if d["decision"] == "accept":
-            if not acks:
+            # the connect ACK is the one at the position of the connect request among the acknowledgeable control
+            # frames of this connection (control frames sent before the handshake are acknowledged too)
+            pos = next((i for i, w in enumerate(want) if w["kind"] == "connect"), 0)
+            if len(acks) <= pos:
                 if not (c.will_fail or c.will_fail is None):
                     out.append(("connect:not-acked", f"conn {cid}: connect request (id {d['requested']}) should be accepted but got no ACK"))
                 continue
-            got = acks[0]["h"]["dst_mod"]
+            got = acks[pos]["h"]["dst_mod"]
             if d["requested"] != 0 and got != d["requested"]:
                 out.append(("connect:wrong-id", f"conn {cid}: requested id {d['requested']}, ACK says {got}"))
             if d["requested"] == 0 and not (DYN_START <= got < MAX_MODULES):
@@ -521,6 +525,37 @@ def check_C18(hs: History, conns, ex: Expect, ob: Obs):
         return []      # the manager died: reported under C03
     """the monitor stream is the ordered record of everything forwarded with a valid destination"""
     out = []
+    ps = getattr(hs, "plain_stats", None)
+    if ps:
+        # a listener that hears ONLY the statistics (an ordinary module, kept writable whenever a report is due): what
+        # the clients published is known from the history; every report interval is closed by the history, so per
+        # type the reported counts add up to the published ones - whether or not anybody is subscribed to the type
+        tot_traffic: Dict[int, int] = {}
+        tot_timing: Dict[int, int] = {}
+        for f in ob.frames.get(1, []):
+            if not (is_mgr(f) and f["p"]["dec"]):
+                continue
+            if f["h"]["type"] == MT["MESSAGE_TRAFFIC"]:
+                _, seq, sub, ty, ct = f["p"]["dec"][:5]
+                for a, b in zip(ty, ct):
+                    if a == -1:
+                        break
+                    tot_traffic[a] = tot_traffic.get(a, 0) + b
+            elif f["h"]["type"] == MT["TIMING_MESSAGE"]:
+                for a, b in dict(f["p"]["dec"][1]).items():
+                    tot_timing[a] = tot_timing.get(a, 0) + b
+        exp = {int(k): v for k, v in ps["expected"].items()}
+        got = {k: v for k, v in tot_traffic.items() if k >= 300}
+        if got != exp:
+            diff = {k: (got.get(k, 0), exp.get(k, 0)) for k in set(got) | set(exp) if got.get(k, 0) != exp.get(k, 0)}
+            out.append(("traffic:totals", f"MESSAGE_TRAFFIC over the whole history (reported, published) differ for types {dict(list(sorted(diff.items()))[:6])}"))
+        if hs.timing:
+            gott = {k: v for k, v in tot_timing.items() if k >= 300}
+            expt = {k: v for k, v in exp.items() if k < 10000}
+            if gott != expt:
+                diff = {k: (gott.get(k, 0), expt.get(k, 0)) for k in set(gott) | set(expt) if gott.get(k, 0) != expt.get(k, 0)}
+                out.append(("timing:totals", f"TIMING_MESSAGE over the whole history (reported, published) differ for types {dict(list(sorted(diff.items()))[:6])}"))
+        return out
     if not (1 in conns and conns[1].logger and conns[1].connected and not conns[1].gone):
         return out
     mon = ob.frames.get(1, [])
